@@ -1,5 +1,8 @@
 use super::{Node, RustFieldType};
-use crate::{error::WriterResult, reader::WriteXml};
+use crate::{
+    error::{WriterError, WriterResult},
+    reader::WriteXml,
+};
 use std::io;
 
 #[derive(Debug, PartialEq, Default)]
@@ -30,24 +33,31 @@ where
 
         writeln!(writer, "Rc::new(restrictions::Restrictions {{")?;
         if let Some(min_inclusive) = &self.min_inclusive {
+            let min_inclusive: i32 = parse_facet("minInclusive", min_inclusive)?;
             writeln!(writer, "   min_inclusive: Some({min_inclusive}), ")?;
         }
         if let Some(max_inclusive) = &self.max_inclusive {
+            let max_inclusive: i32 = parse_facet("maxInclusive", max_inclusive)?;
             writeln!(writer, "   max_inclusive: Some({max_inclusive}), ")?;
         }
         if let Some(min_exclusive) = &self.min_exclusive {
+            let min_exclusive: i32 = parse_facet("minExclusive", min_exclusive)?;
             writeln!(writer, "   min_exclusive: Some({min_exclusive}), ")?;
         }
         if let Some(max_exclusive) = &self.max_exclusive {
+            let max_exclusive: i32 = parse_facet("maxExclusive", max_exclusive)?;
             writeln!(writer, "   max_exclusive: Some({max_exclusive}), ")?;
         }
         if let Some(length) = &self.length {
+            let length: usize = parse_facet("length", length)?;
             writeln!(writer, "   length: Some({length}), ")?;
         }
         if let Some(min_length) = &self.min_length {
+            let min_length: usize = parse_facet("minLength", min_length)?;
             writeln!(writer, "   min_length: Some({min_length}), ")?;
         }
         if let Some(max_length) = &self.max_length {
+            let max_length: usize = parse_facet("maxLength", max_length)?;
             writeln!(writer, "   max_length: Some({max_length}), ")?;
         }
 
@@ -65,6 +75,14 @@ where
 
         Ok(())
     }
+}
+
+/// numeric facets are written as code, so nothing but a number may be written
+fn parse_facet<T: std::str::FromStr>(name: &str, value: &str) -> WriterResult<T> {
+    value
+        .trim()
+        .parse()
+        .map_err(|_| WriterError::new(format!("restriction {name}: `{value}` is not a supported number")))
 }
 
 pub fn build_restrictions<'n>(restriction: Node<'n, 'n>) -> Restrictions {
